@@ -44,8 +44,9 @@ ASSUMPTIONS = [
     "environments, Job objects)",
     "a user variable only re-defines a variable that the package defines (packages are validated without user "
     "variables before the instance is created); several user variable files define disjoint names",
-    "options patched with setOptionForNode belong to 'the experiment that wrote it': the snapshot of the writer is "
-    "taken immediately before store_unreplicated_flowir_to_disk()",
+    "histories contain no setOptionForNode patches: run-time patches live in the replicated in-memory description "
+    "only and are by design not part of the stored (unreplicated) description (the repository's own "
+    "test_graph_instantiate_next_iter asserts this), so demanding their persistence would over-reach the statement",
     "only components that the (unreplicated) instance description can express are patched: a replica has no entry of "
     "its own in it",
     "the spelling of a reference (relative 'A:ref' / absolute 'stage0.A:ref') is not part of the configuration: the "
